@@ -78,7 +78,7 @@ def _range_tabulate(ctx, m) -> bool | None:
                 glob = {"operator": minieval.Stub(le=operator.le, ge=operator.ge, lt=operator.lt, gt=operator.gt), "Iterator": None}
                 funcs = {st.name: st for st in m.top() if isinstance(st, ast.FunctionDef)}
                 iv = minieval.Obj(_methods=meths, _props=props, _ctor=None, _natives={}, start=val(s0), end=val(e0), _start=val(s0), _end=val(e0),
-                                  _absolute=ab, _invert=inv, invert=inv, absolute=ab)
+                                  _absolute=ab, _invert=inv, invert=inv, absolute=ab, _types=(_dt.timedelta,), _truth=(s0 != e0))        # an Interval is a timedelta: false when empty
                 sign = -1 if (inv and not ab) else 1
                 want, k = [], 0
                 while True:
@@ -104,6 +104,12 @@ def _range_tabulate(ctx, m) -> bool | None:
                         r = minieval.call(meths["__contains__"], [iv, val(probe)], {}, {**funcs, "$globals": glob})
                         if bool(r) != inside and cls == "DateTime":
                             bad.append(f"{label}: `{probe.isoformat(' ')} in interval` is {r}")
+                        # the same instant / day given as a value of the standard library (a datetime that is not a DateTime)
+                        native = minieval.Stub(_eqkey=vars(val(probe))["_eqkey"], _types=(_dt.datetime if cls == "DateTime" else _dt.date,))
+                        n += 1
+                        r = minieval.call(meths["__contains__"], [iv, native], {}, {**funcs, "$globals": glob})
+                        if bool(r) != inside and cls == "DateTime":
+                            bad.append(f"{label}: `{probe.isoformat(' ')} in interval` is {r} for a native datetime")
     except wallstub.ERRORS + (ValueError,) as e:
         ctx.unverified("RANGE.tabulated", "Interval.range", f"outside the checker's interpreter: {type(e).__name__}: {e}", m.loc(meths["range"]))
         return None
